@@ -148,6 +148,10 @@ func caseData(s string) []byte {
 }
 
 func runXzCase(r *Result, dp *DriverPool, prop string, cs xzCase, sizes []int64) {
+	if tooManyTimeouts() {
+		r.Inc("cases_skipped_after_timeouts")
+		return
+	}
 	data := caseData(cs.Data)
 	c := cs.Cfg
 	viol := func(kind, sig, note string) {
